@@ -165,7 +165,9 @@ def classify(pid, results, baseline, known):
                 # an anchor of this function's contract was not found (the anchored statement was edited): ghost updates
                 # and assumptions tied to it did not happen, so clauses that may depend on them are not decided;
                 # run-time safety, locking and frame obligations do not depend on anchors and still count
-                anchor_drift = any("anchor not found" in d for d in (f.get("drift") or []))
+                # the same holds when an invariant / assumption / postcondition names a local the changed code no longer
+                # has (a renamed or removed variable): the clause was dropped for this run, what rested on it is not decided
+                anchor_drift = any(("anchor not found" in d or "names a variable the code no longer has" in d) for d in (f.get("drift") or []))
                 independent = o["kind"] in ("index", "slice", "div", "nil", "panic", "exit", "typeassert", "makeslice", "lock", "monitor", "frame", "shift", "conv")
                 if matched:
                     rep["known"].append((o, matched))
